@@ -9,7 +9,7 @@ checks = {
    note="trusts the canonical form (documented in kvmc.Canon) and the reference map; hkeys are driver-chosen; value alphabet is 2 sizes"),
  "C12": dict(cat="model_checking", engine="kvmc", ref="6 C12",
    technique="explicit-state BFS over the real KVStore; full cursor scans (COUNT x MATCH grid) evaluated in every reachable state",
-   text="In every state of the bounded BFS over the real kvstore a complete cursor iteration is run for COUNT in {1,2,10} and MATCH in {none,^a,^zz}; it must terminate and return every present matching key and no absent key.",
+   text="In every state of the bounded BFS over the real kvstore a complete cursor iteration is run for COUNT in {1,2,10} and MATCH in {none,^a,^zz}; it must terminate and return every present matching key and no absent key; in addition a COUNT=1 scan is run with every single operation of the alphabet applied between two cursor calls, at every position: keys present before and after must be yielded, never-present keys must not, the scan terminates.",
    note="storage level covered exhaustively within the depth bound; cluster-level iterators are covered by the cluster part when built"),
 }
 checks.update({
